@@ -68,6 +68,17 @@ func (self *Analyzer) functionSignature(node pAst.FunctionDefinition) {
 		)
 	}
 
+	// ... or with a name which this module imports: the type of a call would be taken from the import,
+	// whereas the call runs the function defined here
+	if imported, exists := self.currentModule.Scopes[0].Values[node.Ident.Ident()]; exists && imported.Origin == ImportedVariableOriginKind {
+		self.error(
+			fmt.Sprintf("Function '%s' has the name of an import of this module", node.Ident.Ident()),
+			[]string{"Consider changing the name of this function"},
+			node.Ident.Span(),
+		)
+		self.hint(fmt.Sprintf("'%s' imported here", node.Ident.Ident()), nil, imported.Span)
+	}
+
 	self.currentModule.addFunc(newFunction(
 		node.Ident.Span(),
 		newNormalFunction(node.Ident),
